@@ -5,6 +5,7 @@ import BoboVerif.Lemmas.LocalStarts
 import BoboVerif.Lemmas.LocalExact
 import BoboVerif.Lemmas.IdInv
 import BoboVerif.Lemmas.LocalSim
+import BoboVerif.Lemmas.GenDecider
 /-!
 C03 — Replication is transparent and survivors take over (failover equivalence).
 
@@ -798,4 +799,20 @@ example : ∃ a b, LockR exCfg gA gB a b ∧ (a.table.runAt "ph" "p1" (gA 0)).is
   exact ⟨a', b', hl, f1, f2, split_stream_mirror_ids exCfg (by decide) exNoSing exCfgWF gA gB exGens a' b' hl⟩
 end example_
 
+end Bobo.Decider
+
+/-! G-tie (C03): the fragments of decider.py regenerated on this run are the ones the model is built from. -/
+namespace Bobo.Decider
+/-- the forward-only test, the memory filters and the step order of `on_distributed_update` / `update()` as they
+stand in the source now (Gen/DeciderFrag.lean) equal the model's. -/
+theorem decider_source_fragments_c03 {ε : Type} (rr : Rec ε) (l : Bobo.Run.Run ε) (c : Cfg ε) (hc : c.caching = true)
+    (s : DState ε) (comp halt upd : List (Rec ε)) :
+    Bobo.Gen.DeciderFrag.ahead rr.idx rr.hist.size l.idx l.hist.size = ahead rr l ∧
+    checkAgainstCache c s comp halt upd =
+      (comp.filter (fun r => Bobo.Gen.DeciderFrag.keepCompleted (inCache s.cacheC r.id) (inCache s.cacheH r.id)),
+       halt.filter (fun r => Bobo.Gen.DeciderFrag.keepHalted (inCache s.cacheC r.id) (inCache s.cacheH r.id)),
+       upd.filter (fun r => Bobo.Gen.DeciderFrag.keepUpdated (inCache s.cacheC r.id) (inCache s.cacheH r.id))) ∧
+    Bobo.Gen.DeciderFrag.remoteOrder = remoteOrderModel ∧ Bobo.Gen.DeciderFrag.localOrder = localOrderModel ∧
+    Bobo.Gen.DeciderFrag.processEventLists = "r_halt_com+p_halt_com,r_halt_incom,r_upd+p_upd" :=
+  ⟨gen_ahead_eq rr l, gen_filters_eq c hc s comp halt upd, gen_remoteOrder_eq, gen_localOrder_eq, gen_processEventLists_eq⟩
 end Bobo.Decider
